@@ -120,7 +120,11 @@ func Discharge(obls []*Obligation, timeoutS int, workers int, needTwo bool) {
 				extra = append(extra, "(assert (not "+o.Goal.S+"))")
 			}
 			q := o.ctx.Query(o.Mark, extra, true)
-			win, all := solveRace(q, timeoutS, needTwo && !o.ExpectSat)
+			t := timeoutS
+			if o.ExpectSat && t > 3 {
+				t = 3 // vacuity probes: only a quick `unsat` matters
+			}
+			win, all := solveRace(q, t, needTwo && !o.ExpectSat)
 			o.Status, o.Backend, o.Millis = win.status, win.backend, win.millis
 			if win.status == "sat" {
 				o.Model = win.output
